@@ -122,6 +122,21 @@ fn check_schedule(ctx: &mut Ctx, router: &ohkami::__verif__::VerifRouter, s: &St
         "first_difference_at_response": k, "observed_response": got.get(k).map(|g| esc(&g[..g.len().min(300)])), "expected_response": expected.0.get(k).map(|g| esc(&g[..g.len().min(300)])), "end": format!("{:?}", obs.end), "expected_end": format!("{:?}", expected.1)}));
 }
 
+/// the oracle applied to the real `Session::manage` over TCP; true if a violation was reported
+fn check_schedule_tcp(ctx: &mut Ctx, router: &ohkami::__verif__::VerifRouter, tcp: &wire::TcpBinding, s: &Stream, cuts: &[usize]) -> bool {
+    let per_request: Vec<Vec<u8>> = s.layout.iter().map(|&(start, _, total, _)| s.bytes[start..start + total].to_vec()).collect();
+    let (Ok(exp), Ok(real)) = (tcp.run(router, &per_request), tcp.run(router, &segments_of(&s.bytes, cuts))) else { return false };
+    if exp.written == real.written && exp.server_closed_first == real.server_closed_first { return false }
+    let (loc, bk) = classify_cuts(s, cuts);
+    let (e, _) = wire::split_responses(&exp.written, &s.heads); let (g, _) = wire::split_responses(&real.written, &s.heads);
+    let k = (0..e.len().max(g.len())).find(|&k| e.get(k) != g.get(k)).unwrap_or(g.len());
+    let symptom = match (e.get(k), g.get(k)) { (Some(a), Some(b)) => if wire::status_of(a) != wire::status_of(b) { format!("refused({})", wire::status_of(b)) } else { "wrong-response".into() },
+        (Some(_), None) => "missing-response".to_string(), (None, Some(_)) => "extra-response".into(), (None, None) => "close-behaviour".into() };
+    ctx.violation(&format!("C06/{loc}/{bk}/{symptom}"), true, || json!({"stream": s.names, "cuts": cuts, "transport": "tcp",
+        "expected_statuses": e.iter().map(|r| wire::status_of(r)).collect::<Vec<_>>(), "observed_statuses": g.iter().map(|r| wire::status_of(r)).collect::<Vec<_>>()}));
+    true
+}
+
 fn expected_of(router: &ohkami::__verif__::VerifRouter, s: &Stream) -> (Vec<Vec<u8>>, End) {
     let per_request: Vec<Vec<u8>> = s.layout.iter().map(|&(start, _, total, _)| s.bytes[start..start + total].to_vec()).collect();
     let obs = wire::run_mem(router, &per_request);
@@ -149,7 +164,13 @@ pub fn run(ctx: &mut Ctx) {
             if !ctx.mine() { continue }
             match wire::conform(&router, &tcp, &segments_of(&s.bytes, &cuts)) {
                 Ok(()) => ctx.traces_validated += 1,
-                Err(e) => ctx.machinery_error(format!("session-loop model does not conform to Session::manage on stream {:?} cuts {:?}: {e}", s.names, cuts)),
+                Err(e) => {
+                    // model and implementation disagree: if the *real* session breaks the property's oracle (against the real
+                    // per-request delivery) while the model does not, the defect is in the real loop -> a violation, not machinery
+                    if !check_schedule_tcp(ctx, &router, &tcp, s, &cuts) {
+                        ctx.machinery_error(format!("session-loop model does not conform to Session::manage on stream {:?} cuts {:?}: {e}", s.names, cuts))
+                    }
+                }
             }
         }
     }
@@ -189,6 +210,11 @@ pub fn replay(ctx: &mut Ctx, case: &Value) {
     let names: Vec<String> = case["stream"].as_array().expect("stream").iter().map(|v| v.as_str().unwrap().to_string()).collect();
     let s = all.iter().find(|s| s.names.iter().map(|n| n.to_string()).collect::<Vec<_>>() == names).expect("unknown stream");
     let cuts: Vec<usize> = case["cuts"].as_array().map(|a| a.iter().map(|v| v.as_u64().unwrap() as usize).collect()).unwrap_or_default();
+    if case["transport"].as_str() == Some("tcp") {
+        let tcp = wire::TcpBinding::new();
+        if !check_schedule_tcp(ctx, &router, &tcp, s, &cuts) { ctx.pass("tcp-replay-ok", true, true) }
+        return
+    }
     let expected = expected_of(&router, s);
     check_schedule(ctx, &router, s, &expected, &cuts);
 }
